@@ -221,17 +221,20 @@ example : (mutate Defects.none rooms01
     { db0 with rows := db0.rows ++ [⟨5, 1, some 0, 3, 3, 3, 9⟩] } 3 4
     { handle := 5, isNew := false, entity := 1, room := some 1, val := some 7, field := .none }).toBool = true := by decide
 
-/-! ### the code as it is (`Defects.asImplemented`): the full statement is false -/
+/-! ### the code as it is: the full statement is false
+
+Each witness turns ONE switch on over the intended behaviour (so that it stays valid when `Defects.asImplemented`
+changes after a fix in /repo). -/
 
 /-- **C01_breaks_subNodesSkipped (#1).** Key 5 has no right in room 0 (`can … = false`); its direct update of
     row 0 is refused; nested under the unchanged row 1 the same update is accepted and row 0 is now signed
     by key 5. With the switch off it is refused. -/
 theorem C01_breaks_subNodesSkipped :
     room0.can 5 1 4 .mutateAll = false ∧ room0.can 5 1 4 .mutateSelf = false ∧
-    (mutate Defects.asImplemented rooms01 db0 5 4
+    (mutate { Defects.none with subNodesSkipped := true } rooms01 db0 5 4
       { handle := 0, isNew := false, entity := 1, room := none, val := some 66, field := .none }).toBool = false ∧
-    authorOf (mutate Defects.asImplemented rooms01 db0 5 4 nestedByOutsider) 0 = some 5 ∧
-    (mutate { Defects.asImplemented with subNodesSkipped := false } rooms01 db0 5 4 nestedByOutsider).toBool = false := by
+    authorOf (mutate { Defects.none with subNodesSkipped := true } rooms01 db0 5 4 nestedByOutsider) 0 = some 5 ∧
+    (mutate Defects.none rooms01 db0 5 4 nestedByOutsider).toBool = false := by
   decide
 
 /-- **C01_breaks_oldRoomLookup (#2).** Member 3 has only the own-rows right in room 0 and the all-rows right
@@ -239,19 +242,19 @@ theorem C01_breaks_subNodesSkipped :
     is looked up with the destination id). With the switch off the move is refused. -/
 theorem C01_breaks_oldRoomLookup :
     room0.can 3 1 4 .mutateAll = false ∧
-    (mutate Defects.asImplemented rooms01 db0 3 4
+    (mutate { Defects.none with oldRoomLookup := true } rooms01 db0 3 4
       { handle := 0, isNew := false, entity := 1, room := none, val := some 5, field := .none }).toBool = false ∧
-    (mutate Defects.asImplemented rooms01 db0 3 4
+    (mutate { Defects.none with oldRoomLookup := true } rooms01 db0 3 4
       { handle := 0, isNew := false, entity := 1, room := some 1, val := some 5, field := .none }).toBool = true ∧
-    (mutate { Defects.asImplemented with oldRoomLookup := false } rooms01 db0 3 4
+    (mutate Defects.none rooms01 db0 3 4
       { handle := 0, isNew := false, entity := 1, room := some 1, val := some 5, field := .none }).toBool = false := by
   decide
 
 /-- **C01_breaks_refDeletionResign (#3).** The outsider 5 "deletes" a reference that does not exist: row 0 is
     re-dated and re-signed by key 5. With the switch off nothing changes. -/
 theorem C01_breaks_refDeletionResign :
-    authorOf (deleteRef Defects.asImplemented rooms01 db0 5 4 0 1 0 1) 0 = some 5 ∧
-    (match deleteRef { Defects.asImplemented with refDeletionResign := false } rooms01 db0 5 4 0 1 0 1 with
+    authorOf (deleteRef { Defects.none with refDeletionResign := true } rooms01 db0 5 4 0 1 0 1) 0 = some 5 ∧
+    (match deleteRef Defects.none rooms01 db0 5 4 0 1 0 1 with
       | .ok db' => decide (db' = db0) | .error _ => false) = true := by
   decide
 
@@ -259,9 +262,9 @@ theorem C01_breaks_refDeletionResign :
     row 1 of room 0 — which key 5 may not edit — disappears with it. With the switch off the deletion is refused. -/
 theorem C01_breaks_incomingRefsUnchecked :
     mayTouch rooms01 db1 5 4 1 = false ∧
-    (match deleteNode Defects.asImplemented rooms01 db1 5 4 7 1 with
+    (match deleteNode { Defects.none with incomingRefsUnchecked := true } rooms01 db1 5 4 7 1 with
       | .ok db' => db'.edges.any (fun e => e.src = 1 && e.dest = 7) | .error _ => true) = false ∧
-    (deleteNode { Defects.asImplemented with incomingRefsUnchecked := false } rooms01 db1 5 4 7 1).toBool = false := by
+    (deleteNode Defects.none rooms01 db1 5 4 7 1).toBool = false := by
   decide
 
 /-- **C01_breaks_sysRefDeletionUnguarded (#32).** Any key — here 5, unknown to the room — removes an admin
@@ -269,9 +272,8 @@ theorem C01_breaks_incomingRefsUnchecked :
     row: an authorisation row changes outside a room mutation. With the switch off the deletion is refused.
     (Replayed on the real code: corpus/C01/sys-ref-deletion-unguarded.ops.) -/
 theorem C01_breaks_sysRefDeletionUnguarded :
-    deleteRoomAdminRef Defects.asImplemented 1 [10, 11] 5 10 = .ok (5, [11]) ∧
-    deleteRoomAdminRef { Defects.asImplemented with sysRefDeletionUnguarded := false } 1 [10, 11] 5 10
-      = .error .deleteNotAllowed := ⟨rfl, rfl⟩
+    deleteRoomAdminRef { Defects.none with sysRefDeletionUnguarded := true } 1 [10, 11] 5 10 = .ok (5, [11]) ∧
+    deleteRoomAdminRef Defects.none 1 [10, 11] 5 10 = .error .deleteNotAllowed := ⟨rfl, rfl⟩
 
 /-! ### the code as it is, under an explicit guard -/
 
@@ -282,13 +284,14 @@ def Guard (top : Change) (subs : List Change) : Prop :=
 
 /-- **C01_partial (the code as it is).** For a mutation whose plan satisfies `Guard` — the entity's own row
     changes or none of its sub-entities' rows does (excludes #1), and no row changes room (excludes #2) — the
-    code as it is writes only rows whose change passed the right check. Missing with respect to the full
+    code writes only rows whose change passed the right check, whatever the switches are (`df` arbitrary, in
+    particular `Defects.asImplemented`). Missing with respect to the full
     statement: the nested sub-entity under an unchanged parent, room moves, reference deletions (#3),
     deletions of referenced rows, and the reference deletion on `sys.Room` (#32), all shown false above or
     by replay (`corpus/C01`). -/
-theorem C01_partial {rooms : List Room} {db db' : Db} {caller : Key} {now : Int} {m : Mut}
+theorem C01_partial (df : Defects) {rooms : List Room} {db db' : Db} {caller : Key} {now : Int} {m : Mut}
     {top : Change} {subs : List Change} (hp : plan db now m = .ok (top, subs)) (hg : Guard top subs)
-    (h : mutate Defects.asImplemented rooms db caller now m = .ok db') :
+    (h : mutate df rooms db caller now m = .ok db') :
     ∀ r ∈ db'.rows, r ∉ db.rows →
       ∃ c, Authorised rooms caller now c ∧ c.entity = r.entity ∧ c.roomId = r.room ∧ r.author = caller := by
   unfold mutate at h
